@@ -125,6 +125,8 @@ def run_parse(ctx, focus):
     if tvh is None:
         ctx.violation("harness does not build against /repo", {"unchecked": "cargo build"}, concrete=False)
         return
+    if focus == "verdict":
+        regression_lines(ctx, tvh, ["doc", "val"] + (["doc_long"] if ctx.tier == "thorough" else []))
     cases, hist = build_cases(ctx)
     lines = [h(c[2]) for c in cases]
     impl, model = run_pair(ctx, tvh, "doc", lines)
